@@ -808,7 +808,66 @@ def two_filesets_case(rec, rng):
         shutil.rmtree(root, ignore_errors=True)
 
 
+_LAZY = {"event": None, "last": None, "gave_up": False}
+
+
+def reader_waits_for_consumer(file_info):
+    """The reader of the last file only finishes once the consumer has received the result before it
+    (the consumer sets the event) - the generous time-out only ends a run that would otherwise hang."""
+    with open(file_info.path) as fh:
+        fid = int(fh.read())
+    if fid == _LAZY["last"]:
+        if not _LAZY["event"].wait(timeout=40):
+            _LAZY["gave_up"] = True
+    return fid
+
+
+def tail_laziness_case(rec, rng):
+    """imap / icollect yield lazily also at the end of the file list: a finished result is handed to the
+    consumer while a younger task of the last wave is still running."""
+    from typhon.files import FileSet, FileHandler
+    root = scratch_dir("c10z")
+    try:
+        n = rng.choice([3, 4, 6])
+        W = rng.choice([2, 3])
+        files = build_tree(root, n, prefix="p")
+        fs = FileSet(path="%s/p/%s" % (root, TEMPLATE), name="Z",
+                     handler=FileHandler(reader=reader_waits_for_consumer), worker_type="thread")
+        _LAZY.update(event=threading.Event(), last=files[-1][3], gave_up=False)
+        method = rng.choice(["icollect", "imap"])
+        case = {"kind": "tail-laziness", "n": n, "max_workers": W, "method": method}
+        rec.ev()
+        rec.count("exec.tail_laziness")
+        s0, s1 = dt.datetime(2017, 6, 1), dt.datetime(2017, 6, 3)
+        got = []
+        try:
+            gen = fs.icollect(s0, s1, max_workers=W) if method == "icollect" else \
+                fs.imap(f_content, start=s0, end=s1, on_content=True, max_workers=W)
+            for item in gen:
+                got.append(item)
+                if len(got) == n - 1:
+                    _LAZY["event"].set()      # the result before the last one has arrived
+        except Exception as exc:
+            rec.violation("unexpected-exception", case, {"exception": repr(exc),
+                                                         "trace": traceback.format_exc()[-1200:]})
+            return
+        finally:
+            _LAZY["event"].set()
+        want = [f[3] for f in files]
+        if [g if not isinstance(g, (list, tuple)) else g[-1] for g in got] != want and got != want:
+            rec.violation("results-wrong", case, {"got": got[:8], "want": want[:8]})
+        elif _LAZY["gave_up"]:
+            rec.violation("not-lazy", case,
+                          {"why": "the result before the last one was not handed to the consumer while the "
+                                  "last task was still running (waited 40 s)"})
+    finally:
+        gc.collect()
+        shutil.rmtree(root, ignore_errors=True)
+
+
 def run_shard(spec, rec):
+    if 4 <= spec["shard"] < 8:
+        tail_laziness_case(rec, rng_for(spec["seed"], "c10-lazy", spec["shard"]))
     if spec["shard"] < 4:
         two_filesets_case(rec, rng_for(spec["seed"], "c10-two", spec["shard"]))
     if spec["kind"] == "enum":
@@ -825,6 +884,10 @@ def evidence_extra(counters, sets):
 
 
 def replay(case, rec):
+    if case.get("kind") == "tail-laziness":
+        for k in range(4):
+            tail_laziness_case(rec, rng_for(k, "c10-lazy-replay"))
+        return
     if case.get("kind") == "two-filesets":
         for k in range(4):
             two_filesets_case(rec, rng_for(k, "c10-two-replay"))
